@@ -655,7 +655,7 @@ class Gen:
         if op == "reshape":
             size = int(np.prod(xs, dtype=np.int64))
             new = self._rand_factorisation(size)
-            p: dict[str, Any] = {"newshape": list(new), "order": self.rng.choice(["C", "C", "F"])}
+            p: dict[str, Any] = {"newshape": list(new), "order": self.rng.choice(["C", "C", "F", "C", "C", "F", "c", "f"])}
             if self.rng.random() < 0.25 and size > 0 and new:
                 j = self.rng.randrange(len(new))
                 p["newshape"][j] = -1
